@@ -39,17 +39,18 @@ Definition c_strtoull (base : nat) (s : list N) : Z * nat * bool :=
 
 Inductive want := WComplex | WFloat | WUnsigned | WSigned.
 
-(* Variants of the code.  All false = src/parse.c as it is.  Each flag is one
-   proposed repair that is waiting to be applied; the check finds out which
-   variant the library under test is (see notes/C08.md):
-     c_uflow  proposed_fixes/C07-3: strtod ERANGE with |result| < 1 is accepted
-     c_oflow  proposed_fixes/C08-5: strtod ERANGE is accepted whatever the result
-     c_zero   proposed_fixes/C07-4: an integer zero is left to strtod when a
-              floating-point value is wanted (so that -0 keeps its sign)
-     c_ullpos proposed_fixes/C08-4: strtoull is only tried after a POSITIVE
-              strtoll overflow *)
+(* Variants of the code, one flag per repair that _GD_TokToNum has received.
+   cfg_current (all true) = src/parse.c as it is (frozen tree 6bdc56b);
+   cfg_old (all false) = the code before the repairs, kept as history for the
+   regression lemmas.  The check probes which variant the library under test is.
+     c_uflow  strtod ERANGE with |result| < 1 is accepted (C07-3, subsumed by c_oflow)
+     c_oflow  strtod ERANGE is accepted whatever the result      (commit 5fd5236)
+     c_zero   an integer zero is left to strtod when a floating-point value is
+              wanted, so that -0 keeps its sign                   (commit 587b9d3)
+     c_ullpos strtoull is only tried after a POSITIVE strtoll overflow (commit 04a1114) *)
 Record cfg := mkCfg { c_uflow : bool; c_oflow : bool; c_zero : bool; c_ullpos : bool }.
-Definition cfg_current : cfg := mkCfg false false false false.
+Definition cfg_current : cfg := mkCfg true true true true.
+Definition cfg_old : cfg := mkCfg false false false false.
 
 Section Lit.
   Variable F : Type.                         (* C double *)
